@@ -40,6 +40,12 @@ def run(repo, rep):
     p10 = shared_state_writes(repo, dec_funcs)
     rep.check(not p10, 'C01.O10', 'pdu:decoders:stateless', 'pynetdicom2/pdu.py',
               '%d decoder functions write no shared object' % len(dec_funcs), '; '.join(p10))
+    rep.rule('C01.O11', 'the look-ahead the container loops use restores the stream position on every path and returns the '
+             'integer value of the next byte (None only at the end of the stream)', 1)
+    from ..codec_rules import peek_problems
+    pk, npaths, loc = peek_problems(repo)
+    rep.check(not pk, 'C01.O11', 'pdu:_next_type:peek', loc.split(':')[0],
+              '%d paths: one byte read, stepped back, its value returned' % npaths, '; '.join(pk))
     try:
         check_roundtrip(lx, rep, 'C01')
     except AnalysisError:
